@@ -48,7 +48,7 @@ def run(chk):
                        'family the test never fails, is reflexive and symmetric, transitive on sampled triples, and SOUND: patterns reported equivalent match exactly the same '
                        'observation sequences under an independent evaluator of the patterning semantics (binding sets over sequences of <= 3 observations, 3 timestamp '
                        'layouts, values incl. integers beyond 2^53); every documented rewrite law instance is recognised; find_equivalent_patterns == filter(equivalent_patterns).')
-    chk.trust('spec/pattern_sem.py as the STIX patterning semantics on the bounded universe (special-value canonicalisations -- CIDR, registry-key case -- are not exercised by the generated constants)')
+    chk.trust('spec/pattern_sem.py as the STIX patterning semantics on the bounded universe', 'ipaddress networks as the meaning of CIDR constants')
     for c in (K.generic_cmp_contract('int'), K.generic_cmp_contract('str'), K.iter_in_contract()):
         chk.prove(c); chk.canary(c)
     for name, claim in K.cmp_lemmas(): chk.lemma(name, claim)
@@ -164,6 +164,87 @@ def run(chk):
     sc = list(subst_cases())
     chk.bounded('single-leaf substitutions in every rewrite context', sc, check_subst, classify=lambda c: (c[0], c[1][1] == c[2][1], c[1][2:], c[2][2:]),
                 bound=f'{len(leaf_pairs)} leaf pairs (9 paths incl. index 0/1 steps and continuations x 19 tests over every constant kind; ' + ('same-path or same-test pairs' if chk.tier == 'thorough' else 'same-path or same-test pairs of the 8 numeric tests, all test pairs on one path') + f') x {len(PG.contexts())} contexts; meaning compared on all observation sequences of length <= 2 (and a length-3 subset) over the paths of the pair with values absent / each constant of the pair / another value (typed: a string never equals a hex or a number of the same text)')
+
+    # ---- qualifiers: two patterns that differ in one qualifier parameter only (window start, window stop, WITHIN span, REPEATS count), in every position a qualifier can take
+    a0 = ('OBS', ('CMP', PA, '=', False, ('num', 1))); b0 = ('OBS', ('CMP', PC, '=', False, ('num', 2)))
+    TQ = lambda x: f"t'2020-01-01T00:00:{x:02d}Z'"
+    QUALS = [('WITHIN', 5.0), ('WITHIN', 20.0), ('REPEATS', 2), ('REPEATS', 3), ('STARTSTOP', TQ(0), TQ(5)), ('STARTSTOP', TQ(0), TQ(10)), ('STARTSTOP', TQ(1), TQ(5)), ('STARTSTOP', TQ(1), TQ(10)), ('STARTSTOP', TQ(2), TQ(20))]
+    QCTX = [('bare', lambda q: ('QUAL', a0, q)), ('on a group', lambda q: ('QUAL', ('PAREN', ('OAND', (a0, b0))), q)), ('under REPEATS', lambda q: ('QUAL', ('QUAL', a0, q), ('REPEATS', 2))),
+            ('under WITHIN', lambda q: ('QUAL', ('QUAL', a0, q), ('WITHIN', 20.0))), ('over REPEATS', lambda q: ('QUAL', ('QUAL', a0, ('REPEATS', 2)), q)),
+            ('operand of AND', lambda q: ('OAND', (('QUAL', a0, q), b0))), ('operand of OR', lambda q: ('OOR', (('QUAL', a0, q), b0))), ('operand of FOLLOWEDBY', lambda q: ('FBY', (b0, ('QUAL', a0, q)))),
+            ('absorbable OR', lambda q: ('OOR', (('QUAL', a0, q), ('OAND', (('QUAL', a0, q), b0)))))]
+    qobs = [{}, {PA: 1}, {PC: 2}, {PA: 1, PC: 2}]
+    qseqs = [[(t, o)] for t in (0, 1, 5, 10) for o in qobs] + [[(t1_, o1), (t2_, o2)] for t1_, t2_ in ((0, 1), (0, 5), (1, 10), (5, 10), (0, 10), (2, 20), (1, 2)) for o1 in qobs[1:] for o2 in qobs[1:]] + \
+            [[(t1_, o1), (t2_, o1), (t3_, o2)] for t1_, t2_, t3_ in ((0, 1, 2), (1, 2, 5), (0, 5, 10), (1, 2, 10), (2, 5, 20)) for o1 in qobs[1:] for o2 in qobs[1:]]
+
+    def qual_cases():
+        for name, ctx in QCTX:
+            for q1, q2 in itertools.combinations(QUALS, 2): yield (name, q1, q2, ctx)
+
+    def check_qual(case):
+        name, q1, q2, ctx = case
+        t1, t2 = ctx(q1), ctx(q2); a, b = show(t1), show(t2)
+        try: e = equivalent_patterns(a, b)
+        except Exception as ex: return (f'total#never fails:{type(ex).__name__}', f'equivalent_patterns({a!r}, {b!r}) raised {type(ex).__name__}: {str(ex)[:100]}', {})
+        if e:
+            r1, r2 = read(a), read(b)
+            w = next((sq for sq in qseqs if matches(r1, sq) != matches(r2, sq)), None)
+            if w is not None:
+                what = 'window stop' if q1[0] == q2[0] == 'STARTSTOP' and q1[1] == q2[1] else 'window start' if q1[0] == q2[0] == 'STARTSTOP' and q1[2] == q2[2] else 'parameter' if q1[0] == q2[0] else 'kind'
+                return (f'sound#reported equivalent but semantics differ:qualifier {what} ({name})', f'{a} ~ {b} reported equivalent, but only one of them matches the observation sequence {w}', {'p': a, 'q': b})
+    chk.bounded('qualifiers differing in one parameter, in every qualifier position', list(qual_cases()), check_qual, classify=lambda c: (c[0], c[1], c[2]),
+                bound=f'{len(QUALS)} qualifiers (2 spans, 2 counts, 5 windows differing in start / stop / both), all pairs x {len(QCTX)} positions; meaning compared on {len(qseqs)} timed observation sequences')
+
+    # ---- special-value canonicalisation (documented rewrites of the normaliser): CIDR networks and registry-key case, against integer arithmetic
+    from stix2.equivalence.pattern.transform.specials import _mask_bytes
+    def mask_cases():
+        for size in (4, 16):
+            for p in range(8 * size + 1):
+                for fill in (0xFF, 0xA5, 0x01, 0x80): yield (size, p, fill)
+
+    def check_mask(case):
+        size, p, fill = case
+        bs = bytearray([fill] * size); n = int.from_bytes(bs, 'big'); bits = 8 * size
+        want = (n >> (bits - p) << (bits - p)) if p else 0
+        try: _mask_bytes(bs, p)
+        except Exception as ex: return ('special#_mask_bytes never fails', f'_mask_bytes({size} bytes of {fill:#x}, {p}) raised {ex!r}', {})
+        if int.from_bytes(bs, 'big') != want: return ('special#_mask_bytes keeps exactly the prefix bits', f'_mask_bytes({size} bytes of {fill:#x}, prefix {p}) = {bytes(bs).hex()}, integer arithmetic {want.to_bytes(size, "big").hex()}', {'size': size, 'prefix': p})
+    chk.bounded('_mask_bytes == integer mask', list(mask_cases()), check_mask, classify=lambda c: c, bound='every prefix size of 4- and 16-byte addresses x 4 byte fills (exhaustive in the prefix dimension)')
+
+    import ipaddress
+    def cidr_cases():
+        v4 = ['10.0.0.1', '10.0.0.2', '10.0.0.129', '10.0.1.1', '10.1.0.1', '192.168.1.1', '138.0.0.1']
+        for p in (0, 1, 7, 8, 9, 15, 16, 17, 23, 24, 25, 26, 30, 31, 32):
+            for x, y in itertools.combinations(v4, 2): yield ('ipv4-addr', x, y, p)
+        v6 = ['2001:db8::1', '2001:db8::2', '2001:db8::81', '2001:db8::1:1', '2001:db9::1', 'fe80::1']
+        for p in (0, 1, 31, 32, 33, 64, 112, 113, 120, 121, 126, 127, 128):
+            for x, y in itertools.combinations(v6, 2): yield ('ipv6-addr', x, y, p)
+
+    def check_cidr(case):
+        typ, x, y, p = case
+        nx = ipaddress.ip_network(f'{x}/{p}', strict=False); ny = ipaddress.ip_network(f'{y}/{p}', strict=False)
+        for neg in ('', 'NOT '):
+            a, b = f"[{typ}:value {neg}= '{x}/{p}']", f"[{typ}:value {neg}= '{y}/{p}']"
+            try: e = equivalent_patterns(a, b)
+            except Exception as ex: return (f'total#never fails:{type(ex).__name__}', f'equivalent_patterns({a!r}, {b!r}) raised {ex!r}', {})
+            if e and nx != ny: return ('sound#reported equivalent but semantics differ:different CIDR networks', f'{a} ~ {b} reported equivalent: networks {nx} and {ny} differ', {'p': a, 'q': b})
+            if not e and nx == ny: return ('laws#documented rewrite recognised:CIDR host bits are insignificant', f'{a} and {b} denote the same network {nx} but are not reported equivalent', {'p': a, 'q': b})
+    chk.bounded('CIDR constants: equivalent exactly when the networks are equal', list(cidr_cases()), check_cidr, classify=lambda c: (c[0], c[3], c[1], c[2]),
+                bound='7 IPv4 addresses x 15 prefix sizes (byte boundaries and both sides of them) and 6 IPv6 addresses x 13 prefix sizes, all pairs, with and without NOT; reference: ipaddress networks')
+
+    def reg_cases():
+        for path, ci in (('key', True), ('values[0].name', True), ('values[*].name', True), ('values[0].data', False), ('modified_time', False)):
+            for x, y in (('HKEY_LOCAL_MACHINE\\\\Foo', 'hkey_local_machine\\\\foo'), ('Abc', 'abc'), ('abc', 'abd')): yield (path, ci, x, y)
+
+    def check_reg(case):
+        path, ci, x, y = case
+        a, b = f"[windows-registry-key:{path} = '{x}']", f"[windows-registry-key:{path} = '{y}']"
+        try: e = equivalent_patterns(a, b)
+        except Exception as ex: return (f'total#never fails:{type(ex).__name__}', f'equivalent_patterns({a!r}, {b!r}) raised {ex!r}', {})
+        same = x == y or (ci and x.lower() == y.lower())
+        if e and not same: return ('sound#reported equivalent but semantics differ:registry value case', f'{a} ~ {b} reported equivalent', {'p': a, 'q': b})
+        if not e and same: return ('laws#documented rewrite recognised:registry key names are case-insensitive', f'{a} and {b} are not reported equivalent', {'p': a, 'q': b})
+    chk.bounded('registry-key constants: case-insensitive on key and value names only', list(reg_cases()), check_reg, classify=lambda c: c, bound='5 paths x 3 constant pairs')
 
     # ---- the generic sequence comparator against its specification (lexicographic three-way comparison), element values incl. falsy ones
     from stix2.equivalence.pattern.compare import iter_lex_cmp, generic_cmp
